@@ -1,5 +1,6 @@
 import Zeno.Proofs.Queue
 import Zeno.Proofs.Warc
+import Zeno.Proofs.Consumer
 import Zeno.Gen.Queue
 import Zeno.Gen.Archiver
 /-!
@@ -52,5 +53,36 @@ theorem c04_crash_prefix (fetched : Nat → List Nat) (a b : List Ev)
 /-- non-vacuity: a concrete admissible log -/
 example : admissible A Q true (fun s => if s = 1 then [10, 11] else []) []
     [.written 10, .archived 10, .written 11, .archived 11, .notify 1, .deleted 1] = true := by decide
+
+/-! ## every URL the queue hands out is crawled -/
+open Zeno.Model.Consumer in
+theorem consumer_facts_ok : okConsumer Q = true := by decide
+
+open Zeno.Model.Consumer in
+/-- **Handed out means crawled.** Of the URLs the consumer takes from the claim buffer — any number, in any order, parsable or
+not — every one whose text can be parsed is inserted into the reactor, whatever came before it; only an unparsable URL is
+sent to the finish channel without a fetch; and every URL gets exactly one of the two fates. -/
+theorem c04_claimed_url_is_crawled (urls : List Claimed) (flag : Bool) :
+    (∀ u ∈ urls, u.parsable = true → (u.id, Fate.inserted) ∈ consume Q flag urls) ∧
+    (∀ x ∈ consume Q flag urls, x.2 = Fate.finishedUnfetched → ∃ u ∈ urls, u.id = x.1 ∧ u.parsable = false) ∧
+    (consume Q flag urls).map Prod.fst = urls.map (·.id) := by
+  rw [consume_eq Q consumer_facts_ok]
+  refine ⟨?_, ?_, ?_⟩
+  · intro u hu hp
+    exact List.mem_map.2 ⟨u, hu, by simp [hp]⟩
+  · intro x hx hf
+    obtain ⟨u, hu, rfl⟩ := List.mem_map.1 hx
+    refine ⟨u, hu, rfl, ?_⟩
+    cases hp : u.parsable with
+    | false => rfl
+    | true => simp [hp] at hf
+  · simp [List.map_map, Function.comp_def]
+
+open Zeno.Model.Consumer in
+/-- with the flag declared outside the loop (seeded change C04-1) one malformed URL sends every later URL of the run to the
+finish channel unfetched -/
+theorem c04_hoisted_flag_counterexample :
+    consume { Q with lqDiscardFlagScope := "hoisted" } false [⟨"bad", false⟩, ⟨"good", true⟩] =
+      [("bad", .finishedUnfetched), ("good", .finishedUnfetched)] := by decide
 
 end Zeno.Props.C04
